@@ -57,6 +57,10 @@ pub enum FrontKind {
     /// nb with a radio buffer of 64 / 255 bytes (board (14, 0) only)
     NbBuf64,
     NbBuf255,
+    /// downlink queue of depth 1 — the crate's default `D` — instead of the harness's usual 4
+    /// (nb / async + Class C, radio buffer 256, board (14, 0) only)
+    NbQ1,
+    AsyncQ1,
 }
 
 impl FrontKind {
@@ -69,6 +73,8 @@ impl FrontKind {
             FrontKind::AsyncBuf255 => "async+classC/buf255",
             FrontKind::NbBuf64 => "nb/buf64",
             FrontKind::NbBuf255 => "nb/buf255",
+            FrontKind::NbQ1 => "nb/queue1",
+            FrontKind::AsyncQ1 => "async+classC/queue1",
         }
     }
     pub fn from_name(s: &str) -> FrontKind {
@@ -79,6 +85,8 @@ impl FrontKind {
             "async+classC/buf255" => FrontKind::AsyncBuf255,
             "nb/buf64" => FrontKind::NbBuf64,
             "nb/buf255" => FrontKind::NbBuf255,
+            "nb/queue1" => FrontKind::NbQ1,
+            "async+classC/queue1" => FrontKind::AsyncQ1,
             _ => FrontKind::Async,
         }
     }
@@ -86,7 +94,7 @@ impl FrontKind {
         !self.is_nb()
     }
     pub fn is_nb(self) -> bool {
-        matches!(self, FrontKind::Nb | FrontKind::NbBuf64 | FrontKind::NbBuf255)
+        matches!(self, FrontKind::Nb | FrontKind::NbBuf64 | FrontKind::NbBuf255 | FrontKind::NbQ1)
     }
     /// size N of the device's radio buffer
     pub fn buf_size(self) -> usize {
@@ -96,8 +104,12 @@ impl FrontKind {
             _ => 256,
         }
     }
+    /// depth D of the device's downlink queue
+    pub fn queue_depth(self) -> usize {
+        if matches!(self, FrontKind::NbQ1 | FrontKind::AsyncQ1) { 1 } else { 4 }
+    }
     pub fn class_c(self) -> bool {
-        matches!(self, FrontKind::AsyncClassC | FrontKind::AsyncBuf64 | FrontKind::AsyncBuf255)
+        matches!(self, FrontKind::AsyncClassC | FrontKind::AsyncBuf64 | FrontKind::AsyncBuf255 | FrontKind::AsyncQ1)
     }
 }
 
@@ -356,8 +368,8 @@ impl<const P: u8, const G: i8> async_device::radio::PhyRxTx for ARadio<P, G> {
     }
 }
 
-pub struct AsyncFront<const P: u8, const G: i8, const N: usize = 256> {
-    dev: async_device::Device<ARadio<P, G>, ATimer, ScriptRng, N, 4>,
+pub struct AsyncFront<const P: u8, const G: i8, const N: usize = 256, const D: usize = 4> {
+    dev: async_device::Device<ARadio<P, G>, ATimer, ScriptRng, N, D>,
     env: Env,
 }
 
@@ -368,7 +380,7 @@ fn norm_async_err<E: std::fmt::Debug>(e: &async_device::Error<E>) -> String {
     }
 }
 
-impl<const P: u8, const G: i8, const N: usize> AsyncFront<P, G, N> {
+impl<const P: u8, const G: i8, const N: usize, const D: usize> AsyncFront<P, G, N, D> {
     pub fn new(cfg: &DevCfg, env: Env, session: Option<&Value>) -> Result<Self, String> {
         let session: Option<Session> = match session {
             Some(v) => Some(serde_json::from_value(v.clone()).map_err(|e| e.to_string())?),
@@ -382,7 +394,7 @@ impl<const P: u8, const G: i8, const N: usize> AsyncFront<P, G, N> {
     }
 }
 
-impl<const P: u8, const G: i8, const N: usize> Front for AsyncFront<P, G, N> {
+impl<const P: u8, const G: i8, const N: usize, const D: usize> Front for AsyncFront<P, G, N, D> {
     fn env(&self) -> Env {
         self.env.clone()
     }
@@ -563,12 +575,12 @@ impl<const P: u8, const G: i8> nb_device::radio::PhyRxTx for NRadio<P, G> {
     }
 }
 
-pub struct NbFront<const P: u8, const G: i8, const N: usize = 256> {
-    dev: nb_device::Device<NRadio<P, G>, ScriptRng, N, 4>,
+pub struct NbFront<const P: u8, const G: i8, const N: usize = 256, const D: usize = 4> {
+    dev: nb_device::Device<NRadio<P, G>, ScriptRng, N, D>,
     env: Env,
 }
 
-impl<const P: u8, const G: i8, const N: usize> NbFront<P, G, N> {
+impl<const P: u8, const G: i8, const N: usize, const D: usize> NbFront<P, G, N, D> {
     pub fn new(cfg: &DevCfg, env: Env, session: Option<&Value>) -> Result<Self, String> {
         let mut dev = nb_device::Device::new(cfg.region_configuration(), NRadio::<P, G> { env: env.clone(), packet: vec![] }, ScriptRng(env.clone()));
         if let Some(v) = session {
@@ -696,7 +708,7 @@ impl<const P: u8, const G: i8, const N: usize> NbFront<P, G, N> {
     }
 }
 
-impl<const P: u8, const G: i8, const N: usize> Front for NbFront<P, G, N> {
+impl<const P: u8, const G: i8, const N: usize, const D: usize> Front for NbFront<P, G, N, D> {
     fn env(&self) -> Env {
         self.env.clone()
     }
@@ -796,7 +808,9 @@ pub fn make_front(cfg: &DevCfg, env: Env, session: Option<&Value>) -> Result<Box
         (FrontKind::AsyncBuf255, (14, 0)) => return Ok(Box::new(AsyncFront::<14, 0, 255>::new(cfg, env, session)?) as Box<dyn Front>),
         (FrontKind::NbBuf64, (14, 0)) => return Ok(Box::new(NbFront::<14, 0, 64>::new(cfg, env, session)?) as Box<dyn Front>),
         (FrontKind::NbBuf255, (14, 0)) => return Ok(Box::new(NbFront::<14, 0, 255>::new(cfg, env, session)?) as Box<dyn Front>),
-        (FrontKind::AsyncBuf64 | FrontKind::AsyncBuf255 | FrontKind::NbBuf64 | FrontKind::NbBuf255, other) => return Err(format!("small radio buffers are only monomorphised for board (14, 0), not {other:?}")),
+        (FrontKind::NbQ1, (14, 0)) => return Ok(Box::new(NbFront::<14, 0, 256, 1>::new(cfg, env, session)?) as Box<dyn Front>),
+        (FrontKind::AsyncQ1, (14, 0)) => return Ok(Box::new(AsyncFront::<14, 0, 256, 1>::new(cfg, env, session)?) as Box<dyn Front>),
+        (FrontKind::AsyncBuf64 | FrontKind::AsyncBuf255 | FrontKind::NbBuf64 | FrontKind::NbBuf255 | FrontKind::NbQ1 | FrontKind::AsyncQ1, other) => return Err(format!("small radio buffers and depth-1 queues are only monomorphised for board (14, 0), not {other:?}")),
         _ => {}
     }
     match cfg.board {
